@@ -280,13 +280,17 @@ fn parts_2_and_3(tier: Tier, seed: u64) -> Extra {
     let inst = dir.join("i.af");
     std::fs::write(&inst, b"p af 4\n1 2\n2 1\n2 3\n3 4\n4 3\n").unwrap();
     let sizes: Vec<usize> = match tier {
-        Tier::Quick => vec![0, 1024, 61_440, 65_535, 65_536, 65_537, 71_680, 1_048_576],
+        // around the pipe capacity, and replies of several MiB (powers of two and just above)
+        Tier::Quick => vec![0, 1024, 61_440, 65_535, 65_536, 65_537, 71_680, 1_048_576, 4_194_305, 6_291_456, 16_777_217],
         Tier::Thorough => {
             let mut v = vec![];
             let mut rng = Rng::new(seed ^ 0xC16);
             for _ in 0..50 {
                 v.extend([0usize, 1024, 61_440, 65_535, 65_536, 65_537, 71_680, 1_048_576]);
                 v.push(rng.range(60_000, 140_000));
+            }
+            for mib in [2usize, 4, 8, 16, 32, 64] {
+                v.extend([mib << 20, (mib << 20) + 1, (mib << 20) + 70_000]);
             }
             v
         }
@@ -328,7 +332,7 @@ fn parts_2_and_3(tier: Tier, seed: u64) -> Extra {
     x.evaluations += real_runs;
     value.insert(
         "part3_real_os".into(),
-        json!({"processes": real_runs, "reply_sizes": if tier == Tier::Quick { json!(sizes) } else { json!("8 fixed sizes x 50 + 50 seeded sizes in 60000..140000") }, "slowest_ms": slowest as u64, "watchdog_s": 60,
+        json!({"processes": real_runs, "reply_sizes": if tier == Tier::Quick { json!(sizes) } else { json!("8 fixed sizes x 50 + 50 seeded sizes in 60000..140000 + 18 sizes of 2..64 MiB") }, "slowest_ms": slowest as u64, "watchdog_s": 60,
                "what": "real crustabri binary (guard off) with --external-sat-solver fakesat on real OS pipes, reply volumes around and above the 64 KiB pipe capacity, comments before/after the verdict, banner before reading stdin, chunked writes; must return the correct answer"}),
     );
     x.value = Value::Object(value);
